@@ -122,7 +122,7 @@ def rule_x2(repo):
 
 
 def rule_x3(repo):
-    res = RuleResult('C15.X3', "unit propagation reports 'satisfiable' only after a pass in which every clause was found satisfied; a clause that is not is never passed over", floor=3)
+    res = RuleResult('C15.X3', "unit propagation reports 'satisfiable' only after a pass in which every clause was found satisfied; a clause that is not is never passed over", floor=4)
     f = _nested(repo, 'unit_propagate')
     cfg = cfg_of(f.node)
     sat_rets = [n for n in cfg.return_nodes() if isinstance(n.ast.value, ast.Constant) and n.ast.value.value == 'satisfiable']
@@ -160,6 +160,19 @@ def rule_x3(repo):
             'a clause that is not satisfied returns a conflict, propagates, or sets %s' % unsat_flag[0] if ok else
             'the pass can go on to the next clause after a clause that is not satisfied without recording it: '
             "'satisfiable' is then reported with a clause that the assignment does not satisfy", '%s:%d' % (SAT, t.lineno))
+    # ... and every clause is looked at: once round the clause loop without the test whether the clause is satisfied means
+    # that some clauses are passed over on other grounds ("it is a tautology"); the pass then ends with 'satisfiable' while
+    # such a clause has no true literal under the assignment that is handed out
+    head = loop_heads[0]
+    body = [b for b, l in head.succ if l == 'loop']
+    round_ = cfg.reach_from(body, skip_nodes=tests)
+    ok = head.id not in round_
+    first = sorted((n for n in cfg.nodes if n.id in round_ and n.kind == 'test' and n.lineno >= head.lineno), key=lambda n: n.lineno)
+    res.add('%s :: solve_cnf.unit_propagate :: every-clause-examined' % SAT, ok,
+            'every pass through the clause loop reaches the test whether the clause is satisfied' if ok else
+            'a clause can be passed over without being tested%s: the assignment reported with \'satisfiable\' need not satisfy it '
+            '(x | ~x alone is answered satisfiable with the empty assignment)' % (
+                ' (line %d: `%s`)' % (first[0].lineno, src(first[0].ast, 40)) if first else ''), '%s:%d' % (SAT, head.lineno))
     return res
 
 
